@@ -243,6 +243,7 @@ func checkC19(c *core.Ctx, l *core.Ledger) {
 		}
 	}
 	l.Floor("PTR-AGREE", 40)
+	checkArgumentNames(c, l)
 	checkTypeIdentity(c, l, "TYPE-IDENTITY", []string{"gen"})
 
 	// ---- HELPER-PTR: isPrimitiveType(k) == !isReferenceType(k) && !isStructType(k) for every root kind
